@@ -81,10 +81,33 @@ func (c *LimitParallelRequests) acquireEndpoint(ctx context.Context, endpointLim
 	})
 	select {
 	case <-ctx.Done():
-		c.releaseEndpoint(endpointLimitKey)
+		c.cancelEndpoint(endpointLimitKey, reqChan)
 		return ctx.Err()
 	case <-reqChan:
 		return nil
+	}
+}
+
+// cancelEndpoint withdraws a request whose context ended while it was waiting in acquireEndpoint.
+// A request that is still queued is only removed from the queue, it does not own a slot; a request
+// that was admitted in the meantime gives its slot back.
+func (c *LimitParallelRequests) cancelEndpoint(endpointLimitKey uint64, reqChan chan struct{}) {
+	queued := false
+	_, _ = c.endpointQueues.ReplaceWithFunc(endpointLimitKey, func(oldValue *endpointQueue, oldLoaded bool) (newValue *endpointQueue, doDelete bool) {
+		if !oldLoaded {
+			return nil, true
+		}
+		for i, ch := range oldValue.orderedRequest {
+			if ch == reqChan {
+				oldValue.orderedRequest = append(oldValue.orderedRequest[:i], oldValue.orderedRequest[i+1:]...)
+				queued = true
+				break
+			}
+		}
+		return oldValue, false
+	})
+	if !queued {
+		c.releaseEndpoint(endpointLimitKey)
 	}
 }
 
